@@ -270,6 +270,8 @@ pub struct Cipher {
 
 pub struct FormatDef {
     pub name: &'static str,
+    /// Name used in signatures; several FormatDefs that feed the same parsers (wmo-root / wmo-group) share one family.
+    pub family: &'static str,
     /// Every entry point name that `drive` passes to `Probe::call` (static so that counters live in shared memory).
     pub entries: &'static [&'static str],
     pub seeds: fn(&SeedCtx) -> Vec<Seed>,
@@ -811,11 +813,37 @@ impl Shm {
     }
 }
 
+// ------------------------------------------------------------ signatures ----
+// One signature per defect *site*: (kind | format family | in-repo site [+ normalised message]). The entry point through
+// which a site was reached is recorded in the witness, not in the signature — the same unchecked `vec![0; n]` is reached
+// through open, list and read_file alike, and a finding must not split (or look "new") because a different seed happened
+// to reach it through another door. Only when no site is known does the entry point stand in for it.
+
+fn site_or<'a>(site: &'a str, entry: &'a str) -> &'a str {
+    if site.is_empty() || site == "?" { entry } else { site }
+}
+pub fn sig_alloc_single(family: &str, entry: &str, site: &str) -> String {
+    format!("alloc|{family}|single-request>=256MiB|{}", site_or(site, entry))
+}
+pub fn sig_alloc_growth(family: &str, entry: &str) -> String {
+    format!("alloc|{family}|growth>=512MiB|{entry}")
+}
+pub fn sig_panic(family: &str, entry: &str, p: &vh_common::PanicInfo) -> String {
+    if p.func.is_empty() { format!("panic|{family}|{entry}|{}", p.sig()) } else { format!("panic|{family}|{}", p.sig()) }
+}
+pub fn sig_crash(family: &str, entry: &str, kind: &str, site: &str) -> String {
+    format!("crash|{kind}|{family}|{}", site_or(site, entry))
+}
+pub fn sig_hang(family: &str, entry: &str, site: &str) -> String {
+    format!("hang|{family}|{}", site_or(site, entry))
+}
+
 // ---------------------------------------------------------------- probe ----
 
 /// Handed to a format's `drive` function: wraps every entry-point call with the monitors.
 pub struct Probe<'a> {
     fmt: &'static str,
+    family: &'static str,
     entries: &'static [&'static str],
     shm: &'a Shm,
     fd: i32,
@@ -915,11 +943,11 @@ impl<'a> Probe<'a> {
                     // under the allocation clause with the same site spelling as a refused request
                     alloc_flagged = true;
                     self.shm.outcome(ei, O_ALLOC);
-                    self.violate(ei, format!("alloc|{}|{}|single-request>=256MiB|{}", self.fmt, entry, p.func),
+                    self.violate(ei, sig_alloc_single(self.family, entry, &p.func),
                                  format!("{entry}: capacity overflow (request > isize::MAX bytes) at {}", p.func), json!({"panic": p.msg, "file": p.file}));
                 } else {
                     self.shm.outcome(ei, O_PANIC);
-                    self.violate(ei, format!("panic|{}|{}|{}", self.fmt, entry, p.sig()),
+                    self.violate(ei, sig_panic(self.family, entry, &p),
                                  format!("{entry} panicked: {} ({})", p.msg.chars().take(200).collect::<String>(), p.func), json!({"file": p.file, "func": p.func}));
                 }
             }
@@ -928,7 +956,7 @@ impl<'a> Probe<'a> {
             self.all_ok = false;
             let site = BIG_SITE.lock().ok().and_then(|g| g.clone()).map(|x| x.0).unwrap_or_else(|| "?".into());
             self.shm.outcome(ei, O_ALLOC);
-            self.violate(ei, format!("alloc|{}|{}|single-request>=256MiB|{}", self.fmt, entry, site),
+            self.violate(ei, sig_alloc_single(self.family, entry, &site),
                          format!("{entry}: single heap request of {} bytes for an input of <= 4 MiB (at {site})", snap.max_req),
                          json!({"max_request": snap.max_req, "refused_by_monitor": refused, "aborted": false}));
         }
@@ -936,7 +964,7 @@ impl<'a> Probe<'a> {
         if growth >= GROWTH {
             self.all_ok = false;
             self.shm.outcome(ei, O_ALLOC);
-            self.violate(ei, format!("alloc|{}|{}|growth>=512MiB", self.fmt, entry),
+            self.violate(ei, sig_alloc_growth(self.family, entry),
                          format!("{entry}: live heap grew by {growth} bytes during the call (input <= 4 MiB)"), json!({"growth": growth, "requests": snap.n_alloc}));
         }
         if dt > SOFT_BUDGET {
@@ -1064,7 +1092,7 @@ fn run_slice(fmt: &FormatDef, seed: &Seed, muts: &[(usize, &Mut)], verif_seed: u
         valloc::set_refuse_at(REFUSE);
         let r = trap(|| {
             let mut p = Probe {
-                fmt: fmt.name, entries: fmt.entries, shm, fd: fds[1], k: 0, seed_label: seed.label.clone(), mdesc: Value::Null,
+                fmt: fmt.name, family: fmt.family, entries: fmt.entries, shm, fd: fds[1], k: 0, seed_label: seed.label.clone(), mdesc: Value::Null,
                 case_idx, variants_sent: BTreeSet::new(), sigs_sent: BTreeSet::new(), scratch: scratch.clone(), all_ok: true, seed_valid: None,
             };
             for (k, m) in muts {
@@ -1163,6 +1191,7 @@ fn run_slice(fmt: &FormatDef, seed: &Seed, muts: &[(usize, &Mut)], verif_seed: u
 pub fn run_batch(c: &mut Case, fmt: &FormatDef, seed: &Seed, muts: &[(usize, &Mut)], verif_seed: u64, shm: &Shm, scratch: &PathBuf, totals: &mut FormatTotals) {
     shm.zero();
     let f = fmt.name;
+    let fam = fmt.family;
     let mut pos = 0usize;
     let mut restarts = 0u32;
     while pos < muts.len() {
@@ -1214,7 +1243,7 @@ pub fn run_batch(c: &mut Case, fmt: &FormatDef, seed: &Seed, muts: &[(usize, &Mu
                 } else if kind == "alloc-abort" || (kind == "SIGABRT" && big.is_some()) {
                     let (site, size) = big.clone().unwrap_or(("?".into(), 0));
                     c.count(&format!("{f}|outcome|alloc"), 1);
-                    c.violate(format!("alloc|{f}|{ename}|single-request>=256MiB|{site}"),
+                    c.violate(sig_alloc_single(fam, ename, &site),
                               format!("{ename}: single heap request of {size} bytes for an input of <= 4 MiB (at {site}); the request was refused by the monitor and the process aborted"),
                               json!({"max_request": size, "aborted": true, "d": detail}));
                     if size > totals.max_req {
@@ -1228,7 +1257,7 @@ pub fn run_batch(c: &mut Case, fmt: &FormatDef, seed: &Seed, muts: &[(usize, &Mu
                         let loc = ["/file-formats/", "/ffi/", "/registry/src/"].iter().filter_map(|m| loc.find(m).map(|p| &loc[p + 1..])).next().unwrap_or(loc);
                         loc.to_string()
                     }).unwrap_or_default();
-                    c.violate(format!("crash|{kind}|{f}|{ename}{}{}", if site.is_empty() { "" } else { "|" }, site),
+                    c.violate(sig_crash(fam, ename, &kind, &site),
                               format!("{ename}: process died ({kind}) while parsing a mutant of {}", seed.label), detail);
                 }
                 pos = mpos + 1;
@@ -1237,7 +1266,7 @@ pub fn run_batch(c: &mut Case, fmt: &FormatDef, seed: &Seed, muts: &[(usize, &Mu
                 let ename = fmt.entries.get(entry).copied().unwrap_or("?");
                 let mpos = locate(k).unwrap_or(pos);
                 let mdesc = muts[mpos].1.describe();
-                let sig = format!("hang|{f}|{ename}|{site}");
+                let sig = sig_hang(fam, ename, &site);
                 if totals.confirmed_hangs.contains(&sig) {
                     // the same loop at the same site has already been confirmed with the 4x budget in this process
                     c.count(&format!("{f}|outcome|hang"), 1);
@@ -1248,7 +1277,7 @@ pub fn run_batch(c: &mut Case, fmt: &FormatDef, seed: &Seed, muts: &[(usize, &Mu
                     let again = run_slice(fmt, seed, &muts[mpos..mpos + 1], verif_seed, c.idx, shm, scratch, HARD_BUDGET * 4);
                     match again.end {
                         SliceEnd::Hung { site: site2, .. } => {
-                            let sig = format!("hang|{f}|{ename}|{site2}");
+                            let sig = sig_hang(fam, ename, &site2);
                             c.count(&format!("{f}|outcome|hang"), 1);
                             totals.confirmed_hangs.insert(sig.clone());
                             c.violate(sig, format!("{ename} did not return within {} s at {site2} (confirmed alone with a 4x budget)", HARD_BUDGET.as_secs() * 4),
